@@ -30,8 +30,18 @@ def decode_rule(F, rep):
                "decoder is %s: malformed sequences would be replaced by U+FFFD (or a BOM sniffed) instead of failing" % declared(c), tir.sp(c), sample={"decoder": declared(c)})
         enc = strip(c["recv"])
         rep.ob("decode.encoding", (enc.get("path") or "") == "encoding_rs::SHIFT_JIS", TRY_FROM, "encoding", "encoding is %s, not SHIFT_JIS" % enc.get("path"), tir.sp(c))
-        arg = strip(c["args"][0])
+        arg = tir.LetEnv(root).resolve(c["args"][0])
         ok = arg.get("k") == "Index" and tir.place(arg["base"]) == sname and safety.slice_to_position(F, root, arg) is not None
+        if not ok and arg.get("k") == "Match" and len(arg["arms"]) == 2:
+            # match s.iter().position(..) { Some(i) => &s[0..i], None => s }
+            good = 0
+            for a in arg["arms"]:
+                q, body = a["pat"], strip(a["body"])
+                if q.get("k") == "TupleStruct" and (q.get("path") or "").endswith("Some"):
+                    good += body.get("k") == "Index" and tir.place(body["base"]) == sname and safety.slice_to_position(F, root, body) is not None
+                else:
+                    good += body.get("k") == "Path" and body.get("name") == sname
+            ok = good == 2
         rep.ob("decode.truncate", ok, TRY_FROM, "slice", "decoded bytes must be s[0..k] with k = first zero byte of s (or s.len()); got %s" % tir.pretty(arg)[:100], tir.sp(arg))
         # the searched predicate is `== 0`
         pred_ok = False
